@@ -83,6 +83,28 @@ NOT_APPLICABLE = {
 
 NOT_BUILT = "not claimed yet: the rules planned for it in DESIGN.md §4 are not built; no check is registered (build in progress)"
 
+
+# clauses added after seed rounds 2c/3 (DESIGN.md §4 "Rules added by seed round 3")
+ADDED = {
+ "C01": " Also: ReadAll returns memory it allocated (no type-asserted reader buffer); the fs metadata record name hashes the unmodified key; the front end and the fs/bolt backends keep no serving-time in-memory copy of stored state.",
+ "C02": " Also: no serving-time cache of directories, buckets or answers in the front end and the fs/bolt backends; a bolt cursor deletes only the record whose key was compared equal with the key sought; the fs delete path never hands a directory to Remove.",
+ "C03": " Also: a strings/bytes Index result separates found from not found at -1 (no `> 0`); bolt cursor moves are examined by the loop; the s3mem listing iterator is positioned only at the marker.",
+ "C04": " Also: every Seek of the s3mem listing iterator goes to page.Marker itself; start-after never overrides a continuation token.",
+ "C05": " Also: no backend call of a handler is guarded by the bucket's versioning configuration (version ids stay addressable while suspended).",
+ "C06": " Also: no error return of CompleteMultipartUpload is reachable after a store into the upload's parts; xmlDecodeBody decodes the whole request body.",
+ "C07": " Also: no serving-time mutable map / sync.Map in the stateless layers; releases through unlock function values are modelled.",
+ "C08": " Also (shared): nothing is wrapped between the body / chunk decoder and the hashing reader; a refused complete has not modified the pending upload.",
+ "C09": " Also (shared): every mutex acquire is released on every path (L1) and the lock-order graph is acyclic (L3) — a kept lock or a cycle is a hang.",
+ "C10": " Also: every file the fs backends create under a name of their own choosing is created exclusively (found and repaired F31); the keys of a multi-object delete reach the backend untransformed; the host middlewares only prepend the bucket to the path.",
+ "C11": " Also: in the fs backends the file positioned at the range start is handed to nothing but the length-limiting wrapper.",
+ "C12": " Also (shared): ReadAll drives the decoder to the end of the stream for every declared size, including 0.",
+ "C13": " Also (shared): every stored version carries a fresh non-empty id from the generator (the id is the page marker).",
+ "C14": " Also: entries are removed from uploader.buckets only if a missing entry lists as empty.",
+ "C15": " Also: constructors reach no destructive storage call; the ETag header derives from obj.Hash alone; no serving-time cache in front of the stores; a metadata path flag that was given is always used.",
+ "C16": " Also: each addressing option writes only its own field; Server() installs the base middleware on the base list alone; the Host header enters the suffix comparison untransformed.",
+ "C17": " Also: the router compares the bucket name only with the empty string and hands the untransformed path segment to the validator.",
+}
+
 def main():
     ids = [json.loads(l)["id"] for l in open(os.path.join(VERIF, "properties.jsonl"))]
     checks = []
@@ -97,7 +119,7 @@ def main():
             "evidence_file": "evidence/%s.json" % pid,
             "replay_cmd_template": "./check %s --replay {path}" % pid,
             "engine": "gfs3check",
-            "level_claimed": {"category": "other", "text": c["text"], "design_ref": c["ref"]},
+            "level_claimed": {"category": "other", "text": c["text"] + ADDED.get(pid, ""), "design_ref": c["ref"]},
             "level_note": c["note"],
             "technique": TECH + c["tech"],
         })
